@@ -83,6 +83,9 @@ def main():
     synth = {"info": prob.get("info", {}), "layout": lay}
     json.dump(synth, open(os.path.join(OUT, "synth.json"), "w"), ensure_ascii=False)
     json.dump(lay, open(os.path.join(OUT, "synth_layout.json"), "w"), ensure_ascii=False)
+    # layouts as character sequences (TLA+ cannot take a string apart): {entry: [chars]}
+    for name, l in (("probhat", prob["layout"]), ("synth", lay)):
+        json.dump({k: list(v) for k, v in l.items()}, open(os.path.join(OUT, name + "_chars.json"), "w"), ensure_ascii=False)
     # suffix table as character sequences (TLA+ cannot take a string apart): [{"key":[..],"val":[..]}]
     suf = json.load(open(os.path.join(REPO, "data", "suffix.json"), encoding="utf-8"))
     json.dump([{"key": list(k), "val": list(v)} for k, v in sorted(suf.items())],
